@@ -2,7 +2,7 @@
 
 from __future__ import annotations
 
-from ..rules import commute
+from ..rules import commute, structure
 from .common import new_run
 
 LEVEL = "other"
@@ -29,6 +29,7 @@ def check(model, tier):
     )
     commute.r03_1_apply_protocol(ctx)
     commute.r03_2_backtrack_contract(ctx)
+    structure.r14_9_engine_plumbing(ctx, rule="R03.3")
     commute.r04_1_matrix(ctx)
     commute.r04_2_failure_hands_back(ctx)
     commute.r04_3_moved_stay_wellformed(ctx)
